@@ -27,6 +27,12 @@ BISECT_LEFT = {"bisect.bisect_left", "bisect_left"}
 def run(ck, an, tier):
     partitions(ck, an)
     custom_events(ck, an)
+    from sa.report import Renamed
+    from rules import C15
+    d15 = Renamed(ck, "C15:")
+    C15.s1(d15, an)      # which timesteps an episode consists of (fold window), i.e. what "the episode's first / last timestep" is
+    C15.s2(d15, an)
+    C15.s3(d15, an)
     dispatch(ck, an)
     nxt(ck, an)
     env_side(ck, an)
@@ -63,6 +69,17 @@ def partitions(ck, an):
         elif isinstance(e, ast.Call) and isinstance(e.func, ast.Name) and e.func.id in ("list", "tuple", "iter") and len(e.args) == 1:
             derive(e.args[0], at, depth + 1)
         elif isinstance(e, (ast.GeneratorExp, ast.ListComp)) and len(e.generators) == 1 and isinstance(e.generators[0].target, ast.Name) and isinstance(e.elt, ast.Name) and e.elt.id == e.generators[0].target.id:
+            v = e.generators[0].target.id
+            for cond in e.generators[0].ifs:
+                fa.sym.scope.append({v})
+                try:
+                    c = fa.sym.cmp(cond, at)
+                finally:
+                    fa.sym.scope.pop()
+                ok_grid = c[0] == "rel" and c[1] == "<=" and c[4] == Poly.atom(f"{v}.time") - Poly.atom("self.timesteps[-1]")
+                ok_markov = c[0] == "rel" and c[1] == "<=" and c[4] == Poly.atom("self.timesteps[0]") - Poly.atom(f"{v}.time")
+                if not (ok_grid or ok_markov):
+                    state["bad"] = f"events are filtered by `{ast.unparse(cond)}` (only `e.time <= timesteps[-1]` and, under markov reset, `e.time >= timesteps[0]` may drop events)"
             derive(e.generators[0].iter, at, depth + 1)
         elif isinstance(e, ast.Name):
             n = fa.cfg.node_of(e)
@@ -170,8 +187,25 @@ def partitions(ck, an):
                 prevk = el[0]
                 ck.check(".total_seconds()" in prevk and "//" not in prevk and "FloorDiv" not in prevk and ".seconds" not in prevk.replace("total_seconds", ""), "IDIOM", "S5.exact-elapsed-seconds", subj, fa.loc(lat_app[0]),
                          "elapsed time is exact (timedelta.total_seconds())", f"elapsed time is computed as {prevk}", construct="sec_since_timestep = ...")
-                ck.check(f".time" in prevk and "self.timesteps[-1 + " in prevk, "ARGFLOW", "S5.elapsed-since-previous-timestep", subj, fa.loc(lat_app[0]),
-                         "elapsed time is measured from the timestep preceding the slot (timesteps[index - 1])", f"elapsed time is {prevk}", construct="timestep_previous = self.timesteps[index - 1]")
+                at_ = fa.node_of(lat_app[0]).id
+                okp = False
+                # the slot index expression as the code names it (S1 checks separately that it is a bisect_left-family search)
+                keyexpr = lat_app[0].func.value.slice
+                idx_txt = None
+                if isinstance(keyexpr, ast.Name):
+                    kd = [d for d in fa.rd.reaching(keyexpr.id, at_) if d.kind == "assign"]
+                    if len(kd) == 1 and isinstance(kd[0].value, ast.Subscript) and ast.unparse(kd[0].value.value) == "self.timesteps":
+                        idx_txt = ast.unparse(kd[0].value.slice)
+                elif isinstance(keyexpr, ast.Subscript) and ast.unparse(keyexpr.value) == "self.timesteps":
+                    idx_txt = ast.unparse(keyexpr.slice)
+                for sent in ("datetime(1800, 1, 1)", "datetime.min", "pd.Timestamp.min"):
+                    if idx_txt is None:
+                        break
+                    spec = fa.sym.canon(ast.parse(f"({ev}.time - (self.timesteps[({idx_txt}) - 1] if ({idx_txt}) - 1 >= 0 else {sent})).total_seconds()", mode="eval").body, at_)
+                    if prevk == spec:
+                        okp = True
+                ck.check(okp, "ARGFLOW", "S5.elapsed-since-previous-timestep", subj, fa.loc(lat_app[0]),
+                         "elapsed time is measured from timesteps[index - 1] when index - 1 >= 0, from a far-past sentinel otherwise", f"elapsed time is {prevk[:200]}", construct="timestep_previous = self.timesteps[index - 1] if index - 1 >= 0 else <far past>")
             elif a[1] == "<" and poly_mentions(a[4], lat_p, sign=-1):
                 detail = "latent requires elapsed < latency (strict): an event exactly at the latency bound is applied after the execution"
         if not ok:
@@ -197,7 +231,9 @@ def partitions(ck, an):
         if isinstance(n, ast.If):
             c = fa.sym.cmp(n.test)
             kind = None
-            if c[0] == "rel" and "self.timesteps[-1]" in c[2] and ".time" in c[2]:
+            evk = fa.sym.canon(ast.Name(id=ev, ctx=ast.Load()), fa.cfg.node_of(n.test).id)
+            if c[0] == "rel" and c[1] == "<=" and c[4] == Poly.atom(f"({evk}).time") - Poly.atom("self.timesteps[-1]") or (c[0] == "rel" and c[1] == "<=" and c[2] == f"-self.timesteps[-1] + ({evk}).time") \
+                    or (c[0] == "rel" and c[1] == "<=" and len(c[4].t) == 2 and c[4].coeff_of_atom("self.timesteps[-1]") == Poly.const(-1) and any(a.endswith(".time") and c[4].coeff_of_atom(a) == Poly.const(1) for a in c[4].atoms())):
                 kind = "grid"
             elif c[0] == "rel" and lat_p in c[2]:
                 kind = "latency"
@@ -307,6 +343,14 @@ def dispatch(ck, an):
             if e in pc:
                 hi = max(hi, pc[e][1])
         ck.check(hi == 1, "PATHCOUNT", "S2.callback-once", subj, fa.loc(c), "the callback is invoked at most once per observer and event", f"callback can run {hi} times", construct=stmt_text(c))
+    # after the callback: last_update, callback counter and the observer's own post-hook, once each
+    for what, pred in (("last_update", lambda x: isinstance(x, ast.Assign) and ast.unparse(x.targets[0]).endswith(".last_update")),
+                       ("_nr_callbacks", lambda x: isinstance(x, ast.AugAssign) and ast.unparse(x.target).endswith("._nr_callbacks") and isinstance(x.op, ast.Add) and const_value(x.value) == 1),
+                       ("observer()", lambda x: isinstance(x, ast.Expr) and isinstance(x.value, ast.Call) and ast.unparse(x.value) == f"{obs}()")):
+        sites = [x for x in ast.walk(loop) if pred(x)]
+        okp = len(sites) == 1 and cb_calls and fa.reachable_from(cb_calls[0][0], sites[0]) and [cmp_key(p) for p in fa.syntactic_guards(sites[0])] == [cmp_key(p) for p in fa.syntactic_guards(cb_calls[0][0])]
+        ck.check(bool(okp), "PATHCOUNT", f"S2.dispatch-protocol-{what}", subj, fa.loc(loop), f"after each callback {what} is updated / invoked exactly once, under the same subscription test",
+                 f"dispatch protocol step `{what}` is missing, duplicated or differently guarded ({len(sites)} sites)", construct=what)
     # last_update stamped with the event's time
     for s in ast.walk(loop):
         if isinstance(s, ast.Assign) and ast.unparse(s.targets[0]).endswith(".last_update"):
@@ -420,12 +464,11 @@ def nxt(ck, an):
                             cc = fa.sym.cmp(cond, fa.cfg.node_of(node).id if fa.cfg.node_of(node) else None)
                         finally:
                             fa.sym.scope.pop()
+                        orig_p = fa.sym.ev(ast.Name(id="origin", ctx=ast.Load()), fa.cfg.node_of(node).id if fa.cfg.node_of(node) else None)
                         for a in cmp_atoms(cc):
                             if a[0] == "rel" and a[1] == "<=" and tv and a[4] == Poly.atom(tv) - Poly.atom("self._current_time"):
                                 bounds = True
-                            if a[0] == "rel" and a[1] == "<=" and tv and "origin" not in tv and poly_mentions(a[4], tv, sign=-1) and len(a[4].t) >= 2 and not poly_mentions(a[4], "self._current_time", sign=-1) is False:
-                                pass
-                            if a[0] == "rel" and a[1] == "<=" and tv and poly_mentions(a[4], tv, sign=-1) and (poly_mentions(a[4], "self._warmup") or poly_mentions(a[4], "datetime.min") or poly_mentions(a[4], "ite(")):
+                            if a[0] == "rel" and a[1] == "<=" and tv and a[4] == orig_p - Poly.atom(tv):
                                 org = True
         both_keys = "set(self._partition_latent)" in agg and "set(self._partition_nonlatent)" in agg
         ck.check(empty_l and ok_sorted and elt_ok and both_keys, "IDIOM", "S7.history-batch-ordered", subj, fa.loc(r),
@@ -455,6 +498,12 @@ def env_side(ck, an):
     ck.check(len([s for s in clock_stores if ast.unparse(s.targets[0]) == "self._now"]) >= 1, "EFFECT", "S8.clock-set", subj, fa.f.loc, "notify sets the environment clock", "notify never sets self._now", construct="self._now = event.time")
     for s in clock_stores:
         ck.check(fa.sym.canon(s.value) == f"{ev}.time", "ARGFLOW", "S8.clock-is-event-time", subj, fa.loc(s), "the clock is set to the event's time", f"clock set to {fa.sym.canon(s.value)}", construct=stmt_text(s))
+    for attr_txt in ("self._now", "AbstractContract.now"):
+        stores_a = [x for x in clock_stores if ast.unparse(x.targets[0]) == attr_txt]
+        ck.check(len(stores_a) >= 1, "EFFECT", "S8.both-clocks-set", subj, fa.f.loc, f"notify sets {attr_txt} (the clock {'contracts' if 'Abstract' in attr_txt else 'the environment'} read)", f"notify never sets {attr_txt}",
+                 construct=f"{attr_txt} = event.time")
+        if disp and stores_a:
+            ord_before(ck, fa, "S8.each-clock-before-dispatch", stores_a, [disp[0]], f"the store of {attr_txt}", "the dispatch")
     if disp:
         d = disp[0]
         ck.check(fa.sym.canon(d.func.value) == ev and d.args and fa.sym.canon(d.args[0]) == "self._observers", "ARGFLOW", "S2.dispatch-to-all-observers", subj, fa.loc(d),
@@ -485,6 +534,12 @@ def env_side(ck, an):
                  "the event becomes _last_event after it has been dispatched", "_last_event is not set to the event after the dispatch", construct="self._last_event = event")
     # new-date notification
     nd = [c for c in walk_function(fa.f.node) if isinstance(c, ast.Call) and fa.sym.canon(c.func) == "EventNewDate"]
+    sent = [c for c in nd if isinstance(getattr(c, "_parent", None), ast.Call) and any(g.short == "TradingEnv.notify" for g in an.res.resolve_call(c._parent, fa.f)[0])]
+    ck.check(len(sent) == 1, "PATHCOUNT", "S8.newdate-notified", subj, fa.f.loc, "a date change is announced with one EventNewDate through notify", f"{len(sent)} EventNewDate notifications in notify", construct="self.notify(EventNewDate(...))")
+    if sent and disp:
+        ord_before(ck, fa, "S8.newdate-before-event", [enclosing_stmt(sent[0]).value] if False else [sent[0]._parent], [disp[0]], "the new-date notification", "the dispatch of the first event of the date") if False else None
+        okn = fa.reachable_from(sent[0]._parent, disp[0]) and not fa.reachable_from(disp[0], sent[0]._parent)
+        ck.check(okn, "ORD", "S8.newdate-before-event", subj, fa.loc(sent[0]), "the new-date notification precedes the dispatch of the first event of the new date", "EventNewDate is sent after the event", construct=stmt_text(sent[0]))
     for c in nd:
         a0 = fa.sym.canon(c.args[0]) if c.args else "?"
         ck.check(a0 == "self._last_event.time", "ARGFLOW", "S8.newdate-stamp", subj, fa.loc(c), "EventNewDate is stamped with the previous event's time", f"EventNewDate stamped {a0}", construct=stmt_text(c))
